@@ -8,7 +8,9 @@ import (
 	"sort"
 	"strings"
 
+	"github.com/youchainhq/go-youchain/consensus/ucon"
 	"github.com/youchainhq/go-youchain/params"
+	"github.com/youchainhq/go-youchain/staking"
 	"verif/harness/vf"
 )
 
@@ -1206,6 +1208,9 @@ func paramsTable(out string) {
 	sb.WriteString(fmt.Sprintf("Definition real_stake_unit : Z := (%s)%%Z.\n", params.StakeUint.String()))
 	sb.WriteString(fmt.Sprintf("Definition real_rate_base : N := %d%%N.\n", params.CommissionRateBase))
 	sb.WriteString(fmt.Sprintf("Definition real_cert_lookback : N := %d%%N.\n", 2*params.ACoCHTFrequency))
+	// the vote-kind numbering is declared twice: consensus/ucon (what voters and the detector use) and staking (what the evidence check reads)
+	sb.WriteString(fmt.Sprintf("Definition real_kinds_ucon : list N := [%d%%N; %d%%N; %d%%N; %d%%N].\n", ucon.Prevote, ucon.Precommit, ucon.NextIndex, ucon.Certificate))
+	sb.WriteString(fmt.Sprintf("Definition real_kinds_staking : list N := [%d%%N; %d%%N; %d%%N; %d%%N].\n", staking.Prevote, staking.Precommit, staking.NextIndex, staking.Certificate))
 	var fr []string
 	for _, id := range []uint64{params.MainNetId, params.TestNetId, params.NetworkIdForTestCase} {
 		params.InitNetworkId(id)
